@@ -51,6 +51,9 @@ type Config struct {
 	MaxSteps int           // default 200000
 	Guard    time.Duration // simulated; default 1h
 	KeepLog  bool          // keep the full step log (otherwise only its hash)
+	// MemYields turns the instrumenter's YieldMem sites (after statements that append to a
+	// slice) into scheduling points
+	MemYields bool
 }
 
 // Result of one run.
@@ -225,6 +228,13 @@ func Rand64() uint64 {
 }
 
 // Yield is a cooperative scheduling point.
+// YieldMem is a scheduling point only in runs configured with MemYields.
+func YieldMem(site string) {
+	if s := active.Load(); s != nil && s.cfg.MemYields {
+		Yield(site)
+	}
+}
+
 func Yield(site string) {
 	s := active.Load()
 	if s == nil {
